@@ -20,7 +20,7 @@ TECHNIQUE = 'dense grid sweep + explicit boundary probing against NIST reference
 RULE = ('8 types x {forward, inverse, totality, boundaries, scaling}; grid blocks of 12,500 points; non-trivial = every grid block; distinct = '
         '(type, part, block)')
 ASSUMPTIONS = ['NIST inverse functions are only specified on their validity range; outside it only totality (no NaN) is required']
-REQUIRED = ['block_size_points', 'window_pairs', 'single_precision_channels', 'chained_scalings', 'default_direction_cases', 'purity_calls', 'forward_points', 'inverse_points', 'boundary_probes', 'monotone_pairs', 'totality_points', 'scaling_points', 'through_channel']
+REQUIRED = ['shape_totality_calls', 'block_size_points', 'window_pairs', 'single_precision_channels', 'chained_scalings', 'default_direction_cases', 'purity_calls', 'forward_points', 'inverse_points', 'boundary_probes', 'monotone_pairs', 'totality_points', 'scaling_points', 'through_channel']
 TYPES = 'BEJKNRST'
 CODES = {'B': 10047, 'E': 10055, 'J': 10072, 'K': 10073, 'N': 10077, 'R': 10082, 'S': 10085, 'T': 10086}
 BANDS = {
@@ -229,6 +229,30 @@ def totality(case, ctx):
         ctx.violation('forward-returns-NaN/%s' % L, {'T': float(T[np.isnan(f)][0])})
     if np.isnan(g).any():
         ctx.violation('inverse-returns-NaN/%s' % L, {'mV': float(V[np.isnan(g)][0])})
+    # total on every array shape a channel read can hand over: empty windows, one value, values of a single sign / piece
+    import nptdms.scaling as S
+    for name, fn, pts in (('forward', th.celsius_to_mv, T), ('inverse', th.mv_to_celsius, V)):
+        for arr in (np.zeros(0), pts[:1].copy(), pts[5000:5003].copy(), np.array([pts[3], pts[-7], pts[10000]])):
+            ctx.count('shape_totality_calls')
+            try:
+                with np.errstate(all='ignore'):
+                    out = np.asarray(fn(arr.copy()))
+                ok = out.shape == arr.shape and not np.isnan(out).any()
+                whole = fn(pts.copy())
+                if ok and len(arr) == 3 and arr[0] == pts[5000]:
+                    ok = np.array_equal(out, np.asarray(whole)[5000:5003])
+                if not ok:
+                    ctx.violation('%s-not-total/%s/%s' % (name, 'empty' if len(arr) == 0 else 'short', L), {'input': arr.tolist(), 'output': out.tolist()})
+            except Exception as ex:
+                ctx.violation('%s-raises/%s/%s' % (name, 'empty-input' if len(arr) == 0 else 'short-input', util.exc_key(ex)), {'type': L, 'input': arr.tolist()})
+    for d in (0, 1):
+        try:
+            out = np.asarray(S.ThermocoupleScaling(CODES[L], d, SG.RAW).scale(np.zeros(0)))
+            ctx.count('shape_totality_calls')
+            if out.shape != (0,):
+                ctx.violation('scaling-empty-input-wrong-shape/%s' % L, {'direction': d, 'shape': list(out.shape)})
+        except Exception as ex:
+            ctx.violation('scaling-raises/empty-input/%s' % util.exc_key(ex), {'type': L, 'direction': d})
 
 
 def scaling(case, ctx):
